@@ -33,7 +33,8 @@ OPS['quote'] = async (rfc, js, d, f) => {
 };
 OPS['unquote'] = async (py, f) => enc_str(csv_utils.unquote_field(dec_str(f)));
 
-module.exports = {OPS, enc_str, dec_str, enc_list, dec_list, enc_table, dec_table, enc_bool, enc_opt_list, repo};
+const RAW_OPS = {};
+module.exports = {OPS, RAW_OPS, enc_str, dec_str, enc_list, dec_list, enc_table, dec_table, enc_bool, enc_opt_list, repo};
 
 async function main() {
     for (const extra of ['impl_js_csv.js', 'impl_js_engine.js']) {
@@ -43,8 +44,12 @@ async function main() {
     const lines = fs.readFileSync(0, 'utf-8').split('\n');
     if (lines.length && lines[lines.length - 1] === '') lines.pop();
     for (const line of lines) {
-        const parts = line.split(' ');
-        const fn = OPS[parts[0]];
+        let parts = line.split(' ');
+        let fn = OPS[parts[0]];
+        if (RAW_OPS[parts[0]]) {
+            fn = RAW_OPS[parts[0]];
+            parts = [parts[0], line.slice(parts[0].length + 1)];
+        }
         let out;
         if (!fn) {
             out = 'bad-op';
